@@ -67,7 +67,7 @@ UNIT = Unit(
            ensures=[("C17-transparent", "final(self).it.log@ == old(self).it.log@.push(Ev::Consume(amt))"),
                     ("C17-counts-bytes", "advanced(old(self).progress, final(self).progress, amt as nat)")]),
         fn("io::Seek for ProgressBarIter", "seek", ret="r", sig_rewrites=IOR,
-           rewrites=[Rw("R5", r"self\.it\.seek\(f\)\.map\(\|pos\| \{\s*self\.progress\.set_position\(pos\);\s*pos\s*\}\)",
+           rewrites=[Rw("R10", r"io::SeekFrom", "SeekFrom", count="any"),Rw("R5", r"self\.it\.seek\(f\)\.map\(\|pos\| \{\s*self\.progress\.set_position\(pos\);\s*pos\s*\}\)",
                         "match self.it.seek(f) { Ok(pos) => { self.progress.set_position(pos); Ok(pos) } Err(e) => Err(e) }")],
            ensures=[("C17-transparent", "final(self).it.log@ == old(self).it.log@.push(Ev::Seek(f, r))"),
                     ("C17-seek-sets-position", "match r { Ok(p) => final(self).progress.pos == p && final(self).progress.finished == old(self).progress.finished, Err(_) => final(self).progress == old(self).progress }")]),
